@@ -200,6 +200,8 @@ package git
 //@   call 0 strconv.ParseUint as sz
 //@   call 0 NewOID assert same(arg_0, words[0])
 //@   call 0 strconv.ParseUint assert same(arg_0, words[2]) && arg_1 == 10 && arg_2 == 32
+//@   call 0 strings.Split assert same(arg_0, line) && arg_1 == " "
+//@   ensures result1 == nil ==> countByte(line, ' ') == 3
 //@   ensures result1 == nil ==> len(words) == 4 && result0.OID == id0 && same(result0.ObjectType, words[1]) && same(result0.Refname, words[3]) && wide(result0.ObjectSize) == wide(sz0)
 //@   ensures (result1 == nil) == (len(words) == 4 && id1 == nil && sz1 == nil)
 
@@ -246,6 +248,8 @@ package git
 
 //@ property C16: (*TreeIter).NextEntry (Tree).Size ParseTree (*Tree).Iter (*ObjectHeaderIter).HasNext (*ObjectHeaderIter).Next NewObjectHeaderIter OIDFromBytes NewOID (OID).MarshalJSON ParseCommit ParseTag ParseBatchHeader ParseReference
 //@ property C15: configKeyMatchesPrefix (*Repository).GetConfig
+// Reference names are taken as they are (whatever bytes they hold): C19.
+//@ property C19: ParseReference (*Repository).NewReferenceIter$1
 
 // ---------------------------------------------------------------- ref_filter.go (C06)
 // apply(f, r) is the meaning of a filter value: "f lets reference name r
@@ -473,8 +477,13 @@ package git
 //@   call 0 Pipeline).Wait as w
 //@   ensures result1 ==> result2 == nil && !w_reached
 //@   ensures !result1 ==> w_reached && result2 == w
+// The verdict channel of the reference iterator carries one value, sent after
+// the stage that closes refCh has returned: it is waited for only once refCh is
+// known to be closed (a receive of it at any other point would block for ever).
 //@ func (*ReferenceIter).Next
 //@   pure
+//@   recv 0 assert true
+//@   recv 1 assert !ok
 //@   ensures result1 ==> result2 == nil
 
 //@ property C10: (*ObjectIter).Next (*BatchObjectIter).Next (*ReferenceIter).Next
